@@ -435,4 +435,27 @@ var SchemaShapes = []func(s *SB){
 		}
 		s.def(func() { s.ns("enum", "E"); s.braces(func() { s.n("X") }) })
 	},
+	// 7: types that exist only through an extension, referred to by other extensions
+	func(s *SB) {
+		s.def(func() {
+			s.n("extend")
+			s.pick("interface", "type")
+			s.n("X")
+			s.braces(func() { s.field("f", "Int") })
+		})
+		s.def(func() { s.ns("type", "A"); s.braces(func() { s.field("f", "Int") }) })
+		s.def(func() {
+			s.ns("extend", "type", "A", "implements")
+			s.pick("X", "I", "Missing", "B")
+		})
+		s.def(func() { s.ns("interface", "I"); s.braces(func() { s.field("f", "Int") }) })
+		s.def(func() { s.ns("union", "U"); s.p(hparse.KEquals); s.n("A") })
+		s.def(func() {
+			s.ns("extend", "union", "U")
+			s.p(hparse.KEquals)
+			s.pick("B", "X", "Missing", "I")
+		})
+		s.def(func() { s.ns("extend", "type", "B"); s.braces(func() { s.field("f", "Int") }) })
+		s.def(func() { s.ns("type", "Query"); s.braces(func() { s.field("a", "A") }) })
+	},
 }
